@@ -159,7 +159,9 @@ Qed.
 (* case analysis over the message, opening the three file-system handlers *)
 Ltac handle_open w :=
   simpl;
-  try (progress unfold h_open_tmp; destruct (f_tmp (w_fs w)));
+  try (progress unfold h_open_tmp;
+       destruct (v_lock _ && match w_owner w with Some _ => true | None => false end);
+       [|destruct (f_tmp (w_fs w))]);
   try (progress unfold h_write_next; destruct (lookupN _ (f_fds (w_fs w))) as [[[? ?] ?]|];
        [destruct (nth_error _ _)|]);
   try (progress unfold h_rename; destruct (f_tmp (w_fs w)));
@@ -332,7 +334,8 @@ Definition mon_lines (c : fctx) (fl : N) (ms : list module) (acc : bytes) (m : m
       end
   | [] =>
       match c, m with
-      | FWrite w, FsOpenTmp content => Some (LWriting w (as_fd r) (length content))
+      | FWrite w, FsOpenTmp content =>
+          match r with RFd fd => Some (LWriting w fd (length content)) | _ => Some LDone end
       | FQuery q tk, GetChan => Some (LQDone q tk fl acc (latched (as_bytes r)))
       | _, _ => None
       end
@@ -429,7 +432,8 @@ Lemma follows_write_state : forall v w (k : pprog),
   pfollows v (after_write w) k -> pfollows v (LProv w) (p_write_state k).
 Proof.
   intros v w k Hk. unfold p_write_state. fstep.
-  apply follows_failed_msg. intros fl acc. fstep.
+  apply follows_failed_msg. intros fl acc. apply fo_call. intro ro.
+  destruct ro; eexists; (split; [reflexivity|]); try (apply fo_ret; exact I).
   apply follows_write_loop. exact Hk.
 Qed.
 
@@ -795,10 +799,23 @@ Proof.
   destruct m; try (apply Hframe; left; reflexivity); try (apply Hframe; right; reflexivity);
     clear Hframe.
   - (* open(status.tag.tmp, O_CREAT|O_TRUNC) *)
+    destruct (v_lock v && match w_owner w with Some _ => true | None => false end) eqn:Eblk.
+    { (* refused: another writer holds the lock; nothing changes, the task stops *)
+      assert (Hh : handle v tid w (FsOpenTmp content) = (w_time w (w_now w + 4), RBool false)).
+      { simpl. unfold h_open_tmp. rewrite Eblk. reflexivity. }
+      rewrite Hh in *. simpl in Hmon.
+      eapply fs_frame; eauto.
+      - unfold fs_same; simpl; repeat split; reflexivity.
+      - destruct q; try reflexivity. destruct n; simpl in Hmon; discriminate.
+      - destruct q; mon_kill Hmon; inversion Hmon; reflexivity. }
+    assert (Hr : snd (handle v tid w (FsOpenTmp content)) = RFd (f_next (w_fs w))).
+    { simpl. unfold h_open_tmp. rewrite Eblk. destruct (f_tmp (w_fs w)); reflexivity. }
+    rewrite Hr in Hmon.
     destruct q; mon_kill Hmon. inversion Hmon; subst; clear Hmon.
     intro Hov.
     assert (Hov0 : w_overlap w = false /\ w_owner w = None).
-    { simpl in Hov. unfold h_open_tmp in Hov. destruct (f_tmp (w_fs w)); simpl in Hov;
+    { simpl in Hov. unfold h_open_tmp in Hov. rewrite Eblk in Hov.
+      destruct (f_tmp (w_fs w)); simpl in Hov;
         apply orb_false_iff in Hov; destruct Hov as [Ho1 Ho2]; split; auto;
         destruct (w_owner w); [discriminate|reflexivity|discriminate|reflexivity]. }
     destruct Hov0 as [Hov0 Hown]. destruct (Hfs Hov0) as (F1 & F2 & F3 & F4 & F5).
@@ -813,9 +830,7 @@ Proof.
                        f_data := set_data ino [] (f_data (w_fs w));
                        f_fds := (f_next (w_fs w), (ino, O, content)) :: f_fds (w_fs w); f_next := nx |}
                     (Some tid) content (w_overlap w || false) (w_pub w)).
-    { simpl. unfold h_open_tmp, ino, nx. rewrite Hown. destruct (f_tmp (w_fs w)); reflexivity. }
-    assert (Hfd : as_fd (snd (h_open_tmp tid w (w_now w + 4) content)) = f_next (w_fs w)).
-    { unfold h_open_tmp. destruct (f_tmp (w_fs w)); reflexivity. }
+    { simpl. unfold h_open_tmp, ino, nx. rewrite Eblk, Hown. destruct (f_tmp (w_fs w)); reflexivity. }
     assert (Hino_tag : f_tag (w_fs w) <> Some ino).
     { unfold ino. destruct (f_tmp (w_fs w)) as [i|] eqn:Et.
       - apply (F4 i eq_refl).
@@ -825,7 +840,7 @@ Proof.
       destruct (F4 i eq_refl). lia. }
     assert (Hnx : (f_next (w_fs w) < nx)%N).
     { unfold nx. destruct (f_tmp (w_fs w)); lia. }
-    rewrite Hw', Hfd. clearbody ino nx. clear Hw' Hfd.
+    rewrite Hw'. clearbody ino nx. clear Hw'.
     unfold tag_content, file_content. proj. simpl.
     split; [|split; [|split; [|split]]].
     + unfold tag_content, file_content in F1.
@@ -1144,12 +1159,12 @@ Definition f10_ops : list op := [OpReport F_K; OpReport F_L; OpReport F_R; OpRes
 Definition f10_sched : list nat := [0; 1; 2; 3; 3; 4; 2; 4; 4; 4; 4; 4]%nat.
 
 Theorem stale_finish_refuted :
-  let c := prun current_code (start current_code f10_world f10_ops) f10_sched in
+  let c := prun original_code (start original_code f10_world f10_ops) f10_sched in
   exists res, result_of c 4 = Some res /\
     match res with RQuery fin _ q _ fl la =>
       fin = true /\ la = false /\ 0 < q /\ fcontains fl F_K = false | RDone => False end /\
     ~ truthful (shared c) res /\
-    KnownClass_C16_stale_stamp current_code f10_world f10_ops f10_sched = true.
+    KnownClass_C16_stale_stamp original_code f10_world f10_ops f10_sched = true.
 Proof.
   eexists. split; [vm_compute; reflexivity|]. split; [|split].
   - vm_compute. repeat split; reflexivity.
@@ -1168,12 +1183,12 @@ Definition f12_ops : list op := [OpQuery (QConst 0)].
 Definition f12_sched : list nat := repeat 0%nat 10.
 
 Theorem zero_tick_refuted :
-  let c := prun current_code (start current_code world0 f12_ops) f12_sched in
+  let c := prun original_code (start original_code world0 f12_ops) f12_sched in
   exists res, result_of c 0 = Some res /\
     match res with RQuery fin _ q tk fl la =>
       fin = true /\ la = false /\ q = 0 /\ tk = 0 /\ fl = 0%N | RDone => False end /\
     ~ truthful (shared c) res /\
-    KnownClass_C16_stale_stamp current_code world0 f12_ops f12_sched = false.
+    KnownClass_C16_stale_stamp original_code world0 f12_ops f12_sched = false.
 Proof.
   eexists. split; [vm_compute; reflexivity|]. split; [|split].
   - vm_compute. repeat split; reflexivity.
@@ -1193,8 +1208,8 @@ Definition f11_ops : list op := [OpTimeup; OpTimeup; OpSetMsg MKeyKeeper [120]%N
 Definition f11_sched : list nat := repeat 0%nat 11 ++ [2%nat] ++ repeat 1%nat 108 ++ repeat 0%nat 60.
 
 Theorem shared_tmp_refuted :
-  let c := prun current_code (start current_code world0 f11_ops) f11_sched in
-  KnownClass_C16_overlapping_writers current_code world0 f11_ops f11_sched = true /\
+  let c := prun original_code (start original_code world0 f11_ops) f11_sched in
+  KnownClass_C16_overlapping_writers original_code world0 f11_ops f11_sched = true /\
   tag_content (shared c) <> w_pub (shared c) /\
   (exists published, w_pub (shared c) = Some published /\
      exists mixed, tag_content (shared c) = Some mixed /\
@@ -1204,6 +1219,34 @@ Proof.
   - vm_compute. discriminate.
   - eexists. split; [vm_compute; reflexivity|]. eexists. split; [vm_compute; reflexivity|].
     split; [vm_compute; discriminate|vm_compute; reflexivity].
+Qed.
+
+(* the source still takes the mutex before writing status.tag.tmp (regenerated from provision.rs on
+   every run): this is what licenses [v_lock repaired_code = true] *)
+Lemma writers_serialized_in_source :
+  Consts.provision_status_tag_writers_serialized = 1%N /\ v_lock repaired_code = true.
+Proof. split; reflexivity. Qed.
+
+(* with the writers serialized (v_lock) two writers never overlap *)
+Lemma handle_lock_overlap : forall v tid w m,
+  v_lock v = true -> w_overlap w = false -> w_overlap (fst (handle v tid w m)) = false.
+Proof.
+  intros v tid w m Hv Ho. destruct m; simpl; auto.
+  - unfold h_open_tmp. rewrite Hv. destruct (w_owner w); simpl; auto.
+    destruct (f_tmp (w_fs w)); simpl; rewrite Ho; reflexivity.
+  - unfold h_write_next. destruct (lookupN fd (f_fds (w_fs w))) as [[[? ?] ?]|]; simpl; auto.
+    destruct (nth_error _ _); simpl; auto.
+  - unfold h_rename. destruct (f_tmp (w_fs w)); simpl; auto.
+Qed.
+
+Theorem lock_never_overlap : forall v evt msgs chan tag0 (ps : list pprog) sched,
+  v_lock v = true ->
+  w_overlap (shared (run (handle v) (init (init_world evt msgs chan tag0) ps) sched)) = false.
+Proof.
+  intros v evt msgs chan tag0 ps sched Hv.
+  apply (invariant_rule_calls (handle v) (fun c => w_overlap (shared c) = false)).
+  - reflexivity.
+  - intros c t m k Hc _. simpl. now apply handle_lock_overlap.
 Qed.
 
 (* ========================================================================================== *)
@@ -1225,14 +1268,14 @@ Qed.
 
 Lemma finished_truthful_partial : forall evt msgs chan tag0 ops sched t fin err q tk fl la,
   let w0 := init_world evt msgs chan tag0 in
-  let c := prun current_code (start current_code w0 ops) sched in
+  let c := prun original_code (start original_code w0 ops) sched in
   result_of c t = Some (RQuery fin err q tk fl la) ->
-  KnownClass_C16_stale_stamp current_code w0 ops sched = false ->
+  KnownClass_C16_stale_stamp original_code w0 ops sched = false ->
   KnownClass_C16_nonpositive_query_tick q = false ->
   truthful (shared c) (RQuery fin err q tk fl la).
 Proof.
   intros evt msgs chan tag0 ops sched t fin err q tk fl la w0 c Hr Hs Hq.
-  apply (finished_truthful_each_repair current_code evt msgs chan tag0 ops sched t); auto.
+  apply (finished_truthful_each_repair original_code evt msgs chan tag0 ops sched t); auto.
 Qed.
 
 Lemma finished_truthful_repaired : forall evt msgs chan tag0 ops sched t res,
@@ -1248,3 +1291,29 @@ Qed.
 Lemma polls_are_schedules : forall v w0 ops polls,
   exists sched, fold_left (ppoll v) polls (start v w0 ops) = prun v (start v w0 ops) sched.
 Proof. intros. apply (run_polls_p_is_run (handle v) is_sync poll_bound). Qed.
+
+(* the code as it is now: status.tag always shows the last complete published content *)
+Lemma status_tag_atomic_repaired : forall evt msgs chan tag0 ops sched,
+  let w := shared (prun repaired_code (start repaired_code (init_world evt msgs chan tag0) ops) sched) in
+  tag_content w = w_pub w.
+Proof.
+  intros. apply status_tag_atomic. apply lock_never_overlap. reflexivity.
+Qed.
+
+Lemma status_tag_old_or_new_repaired : forall evt msgs chan tag0 ops sched t,
+  let c := prun repaired_code (start repaired_code (init_world evt msgs chan tag0) ops) sched in
+  let c' := sstep (handle repaired_code) c t in
+  tag_content (shared c') = tag_content (shared c) \/
+  tag_content (shared c') = Some (w_intent (shared c)).
+Proof.
+  intros. apply status_tag_old_or_new.
+  unfold c', c, prun, start. rewrite <- run_snoc. apply lock_never_overlap. reflexivity.
+Qed.
+
+(* the F11 schedule on the code as it is now: the second writer's open is refused, status.tag is
+   the first writer's complete content, no overlap *)
+Lemma shared_tmp_repaired :
+  let c := prun repaired_code (start repaired_code world0 f11_ops) f11_sched in
+  w_overlap (shared c) = false /\ tag_content (shared c) = w_pub (shared c) /\
+  result_of c 1 = Some RDone /\ w_owner (shared c) = Some 0%nat.
+Proof. vm_compute. repeat split; reflexivity. Qed.
